@@ -416,7 +416,8 @@ def translate(events, world):
             if e["kind"] == "data":
                 databuf[e["conn"]] = bytearray()
         elif ev == "Send":
-            last_verb[s] = e["v"]
+            if e["v"] in ("retr", "stor", "appe", "list", "mlsd"):
+                last_verb[s] = e["v"]
             out.append({"ev": "Send", "s": s, "t": t, "v": e["v"], "a": e["a"], "x": e["x"], "n": e["n"]})
         elif ev in ("DataSend", "DataEof", "Vanish", "ServerClose", "Tick", "CtlClose"):
             r = {"ev": ev, "t": t}
